@@ -248,8 +248,44 @@ Fixpoint remove_dangling (fuel : nat) (c : circ) (root : nat) : option circ :=
   end.
 Definition dangling_fuel (c : circ) : nat := S (S (lnext c)).
 
-(** ** eliminate_1to1_forks (circuit.py:347-371) *)
+(** ** eliminate_1to1_forks (circuit.py:348-373) *)
+(* `if len(n.ins) < 1 or n.ins[0] is None: continue` (fix of D38): a fork without driver is not a 1:1 fork and is left alone; the
+   test is made BEFORE anything is removed.  [elim_one_old] below keeps the code before that fix (`in_line = n.ins[0]`: IndexError
+   for ins = [], AttributeError on None half-way through the mutation) for the refuted companion C10_eliminate_driverless_fork_kept. *)
 Definition elim_one (c : circ) (n : nat) : option circ :=
+  if in_ios c n then Some c
+  else match outs_of c n with
+       | [oo] =>
+           match ins_of c n with
+           | [] => Some c                                   (* len(n.ins) < 1: continue *)
+           | None :: _ => Some c                            (* n.ins[0] is None: continue *)
+           | Some in_line :: _ =>
+               match oo with
+               | None => None                               (* out_line.reader: AttributeError *)
+               | Some out_line =>
+                   let out_reader := l_rdr (lst c out_line) in
+                   let out_reader_pin := l_rpin (lst c out_line) in
+                   match node_remove c n with
+                   | None => None
+                   | Some c1 =>
+                       match line_remove c1 out_line with
+                       | None => None
+                       | Some c2 =>
+                           match out_reader with
+                           | Some rd =>
+                               let c3 := upd_line c2 in_line (fun x => lset_rdr x (Some rd) out_reader_pin) in
+                               Some (upd_node c3 rd (fun x => nset_ins x (gset (n_ins x) out_reader_pin (Some in_line))))
+                           | None => None                   (* in_line.reader.ins: AttributeError on None *)
+                           end
+                       end
+                   end
+               end
+           end
+       | _ => Some c
+       end.
+Definition eliminate_1to1 (c : circ) : option circ := fold_opt elim_one (map snd (forks c)) c.
+(* the loop body before the fix of D38 *)
+Definition elim_one_old (c : circ) (n : nat) : option circ :=
   if in_ios c n then Some c
   else match outs_of c n with
        | [oo] =>
@@ -279,7 +315,7 @@ Definition elim_one (c : circ) (n : nat) : option circ :=
            end
        | _ => Some c
        end.
-Definition eliminate_1to1 (c : circ) : option circ := fold_opt elim_one (map snd (forks c)) c.
+Definition eliminate_1to1_old (c : circ) : option circ := fold_opt elim_one_old (map snd (forks c)) c.
 
 (** ** copy (circuit.py:450-466), __getstate__/__setstate__ (468-489) *)
 Definition lookup_by_kind (c : circ) (name kind : string) : option nat :=
